@@ -307,7 +307,9 @@ pub fn run_isolated(prop: &str, case: &Value, timeout_s: u64, timeout_is_violati
         // case that ran out of time is run once more, alone in its process as before, with four
         // times the limit (at least 120 s). Only if that run does not come back either is the
         // hang reported; otherwise the slow run's own outcome counts.
-        if timeout_is_violation && o.violation.as_ref().map_or(false, |v| v.fingerprint.starts_with("hang:")) {
+        // (once a hang of this case has been confirmed, later rounds — which resume behind the
+        // hanging step — are not confirmed again)
+        if timeout_is_violation && acc.is_empty() && o.violation.as_ref().map_or(false, |v| v.fingerprint.starts_with("hang:")) {
             let o2 = run_isolated_once(prop, &case, (timeout_s * 4).max(120), timeout_is_violation);
             let still = o2.violation.as_ref().map_or(false, |v| v.fingerprint.starts_with("hang:"));
             o = o2;
